@@ -5,6 +5,8 @@
 (*   core/measurements/measurement.go (same selection on Measurement)      *)
 (* over W-bit two's-complement integers with Go's truncating division.     *)
 (* Used by C02 directly and by SyncRound (C01), Multipath (C15).           *)
+(* Several goroutines calling at once: MidpointConc.tla (same clauses per  *)
+(* caller).                                                                *)
 (***************************************************************************)
 EXTENDS Integers, Sequences, FiniteSets, TLC
 
